@@ -43,7 +43,7 @@ Fixpoint text_ok (en : env) (e : expr) {struct e} : Prop :=
                     (fix all (l : list expr) : Prop := match l with [] => True | x :: r => text_ok en x /\ all r end) items
   | EPList items => Nat.even (length items) = true /\
                     (fix all (l : list expr) : Prop := match l with [] => True | x :: r => text_ok en x /\ all r end) items
-  | EObj _ _ _ => False
+  | EObj _ _ _ | EMenu _ _ _ => False
   | _ => True
   end.
 Fixpoint text_ok_args (en : env) (l : list expr) : Prop := match l with [] => True | x :: r => text_ok en x /\ text_ok_args en r end.
@@ -189,6 +189,7 @@ Proof.
       rewrite goR_rev by (rewrite map_length; exact Hev).
       norm_render. rewrite render_sep, render_pairs_F. rewrite map_map. repeat rewrite sappend_assoc. rewrite ?append_nil_r. reflexivity.
   - intros f pid x _ [].
+  - intros pid it mn _ _ [].
   - intros _ pc ind. reflexivity.
   - intros x l IHx IHl [Hx Hl] pc ind. cbn [reify_args]. destruct (reify_args en (pc + zlen (compile_e x)) l) as [ns pa] eqn:Er.
     cbn [fst map]. rewrite (IHx Hx). specialize (IHl Hl (pc + zlen (compile_e x))%Z ind). rewrite Er in IHl. cbn [fst] in IHl. rewrite IHl. reflexivity.
